@@ -140,6 +140,13 @@ func (i *Int) Mul(lhs, rhs *Int) {
 // MulCap sets i = lhs * rhs with capacity capacity.
 // When capacity < 0, it is set to lhs.AnnouncedLen() + rhs.AnnouncedLen().
 func (i *Int) MulCap(lhs, rhs *Int, capacity int) {
+	// saferith truncates an operand by masking its limbs in place; do not let that reach the caller's values.
+	if capacity >= 0 && capacity < lhs.AnnouncedLen() {
+		lhs = lhs.Clone()
+	}
+	if capacity >= 0 && capacity < rhs.AnnouncedLen() {
+		rhs = rhs.Clone()
+	}
 	(*saferith.Int)(i).Mul((*saferith.Int)(lhs), (*saferith.Int)(rhs), capacity)
 }
 
